@@ -40,6 +40,7 @@ func runC11(c *core.Ctx) {
 		return
 	}
 	c11Confinement(c)
+	challengeSchemesFiltered(c, "C11.R4")
 	hostKeying(c, "C11.R6")
 	c11RequestUnmodified(c, rt)
 	c11BodyClosed(c, rt)
